@@ -81,4 +81,136 @@ theorem join8_split8 (bs : Bytes) (h : bs.length = 8) : join8 (split8 bs) = bs :
   rw [e1, u32be_be32 (bs.take 4) (by simp [h]), u32be_be32 (bs.drop 4) (by simp [h])]
   exact List.take_append_drop 4 bs
 
+
+/-! little-endian words -/
+
+theorem u32le_length (w : UInt32) : (u32le w).length = 4 := by simp [u32le, natToLE_length]
+theorem u16le_length (w : UInt16) : (u16le w).length = 2 := by simp [u16le, natToLE_length]
+
+theorem u32le_le32 (bs : Bytes) (h : bs.length = 4) : u32le (le32 bs) = bs := by
+  unfold u32le le32
+  have h4 : bs.take 4 = bs := List.take_of_length_le (by omega)
+  rw [h4]
+  have hlt := natOfLE_lt bs
+  rw [h] at hlt
+  have : (UInt32.ofNat (natOfLE bs)).toNat = natOfLE bs := by
+    simp [UInt32.toNat_ofNat']; omega
+  rw [this]
+  have := natToLE_natOfLE bs
+  rw [h] at this
+  exact this
+
+theorem le32_u32le_append (w : UInt32) (rest : Bytes) : le32 (u32le w ++ rest) = w := by
+  unfold le32
+  have : (u32le w ++ rest).take 4 = u32le w := by
+    rw [List.take_append_of_le_length (by simp [u32le_length])]
+    exact List.take_of_length_le (by simp [u32le_length])
+  rw [this]
+  unfold u32le
+  rw [natOfLE_natToLE]
+  have := w.toNat_lt
+  have h : w.toNat % 256 ^ 4 = w.toNat := Nat.mod_eq_of_lt (by omega)
+  rw [h]; simp
+
+theorem u16le_le16 (bs : Bytes) (h : bs.length = 2) : u16le (le16 bs) = bs := by
+  unfold u16le le16
+  have h4 : bs.take 2 = bs := List.take_of_length_le (by omega)
+  rw [h4]
+  have hlt := natOfLE_lt bs
+  rw [h] at hlt
+  have : (UInt16.ofNat (natOfLE bs)).toNat = natOfLE bs := by
+    simp [UInt16.toNat_ofNat']; omega
+  rw [this]
+  have := natToLE_natOfLE bs
+  rw [h] at this
+  exact this
+
+theorem le16_u16le_append (w : UInt16) (rest : Bytes) : le16 (u16le w ++ rest) = w := by
+  unfold le16
+  have : (u16le w ++ rest).take 2 = u16le w := by
+    rw [List.take_append_of_le_length (by simp [u16le_length])]
+    exact List.take_of_length_le (by simp [u16le_length])
+  rw [this]
+  unfold u16le
+  rw [natOfLE_natToLE]
+  have := w.toNat_lt
+  have h : w.toNat % 256 ^ 2 = w.toNat := Nat.mod_eq_of_lt (by omega)
+  rw [h]; simp
+
+theorem drop_append_len {α} (a b : List α) (n : Nat) (h : a.length = n) : (a ++ b).drop n = b := by
+  subst h; simp
+
+theorem split16le_join16le (p : UInt32 × UInt32 × UInt32 × UInt32) : split16le (join16le p) = p := by
+  obtain ⟨a, b, c, d⟩ := p
+  unfold split16le join16le
+  simp only [List.append_assoc]
+  have d4 : (u32le a ++ (u32le b ++ (u32le c ++ u32le d))).drop 4 = u32le b ++ (u32le c ++ u32le d) :=
+    drop_append_len _ _ 4 (u32le_length a)
+  have d8 : (u32le a ++ (u32le b ++ (u32le c ++ u32le d))).drop 8 = u32le c ++ u32le d := by
+    have : (8:Nat) = 4 + 4 := rfl
+    rw [this, ← List.drop_drop, d4, drop_append_len _ _ 4 (u32le_length b)]
+  have d12 : (u32le a ++ (u32le b ++ (u32le c ++ u32le d))).drop 12 = u32le d := by
+    have : (12:Nat) = 8 + 4 := rfl
+    rw [this, ← List.drop_drop, d8, drop_append_len _ _ 4 (u32le_length c)]
+  rw [d4, d8, d12, le32_u32le_append, le32_u32le_append, le32_u32le_append]
+  have := le32_u32le_append d []
+  simp at this
+  rw [this]
+
+theorem le32_take (bs : Bytes) : le32 (bs.take 4) = le32 bs := by simp [le32, List.take_take]
+theorem le16_take (bs : Bytes) : le16 (bs.take 2) = le16 bs := by simp [le16, List.take_take]
+
+theorem join16le_split16le (bs : Bytes) (h : bs.length = 16) : join16le (split16le bs) = bs := by
+  unfold join16le split16le
+  simp only
+  rw [← le32_take bs, ← le32_take (bs.drop 4), ← le32_take (bs.drop 8), ← le32_take (bs.drop 12)]
+  rw [u32le_le32 _ (by simp [h]), u32le_le32 _ (by simp [h]), u32le_le32 _ (by simp [h]),
+    u32le_le32 _ (by simp [h])]
+  have e1 : bs = bs.take 4 ++ bs.drop 4 := (List.take_append_drop 4 bs).symm
+  have e2 : bs.drop 4 = (bs.drop 4).take 4 ++ bs.drop 8 := by
+    have := (List.take_append_drop 4 (bs.drop 4)).symm
+    simpa [List.drop_drop] using this
+  have e3 : bs.drop 8 = (bs.drop 8).take 4 ++ bs.drop 12 := by
+    have := (List.take_append_drop 4 (bs.drop 8)).symm
+    simpa [List.drop_drop] using this
+  have e4 : (bs.drop 12).take 4 = bs.drop 12 := List.take_of_length_le (by simp [h])
+  rw [e4]
+  conv => rhs; rw [e1, e2, e3]
+  simp [List.append_assoc]
+
+theorem split8le16_join8le16 (p : UInt16 × UInt16 × UInt16 × UInt16) : split8le16 (join8le16 p) = p := by
+  obtain ⟨a, b, c, d⟩ := p
+  unfold split8le16 join8le16
+  simp only [List.append_assoc]
+  have d2 : (u16le a ++ (u16le b ++ (u16le c ++ u16le d))).drop 2 = u16le b ++ (u16le c ++ u16le d) :=
+    drop_append_len _ _ 2 (u16le_length a)
+  have d4 : (u16le a ++ (u16le b ++ (u16le c ++ u16le d))).drop 4 = u16le c ++ u16le d := by
+    have : (4:Nat) = 2 + 2 := rfl
+    rw [this, ← List.drop_drop, d2, drop_append_len _ _ 2 (u16le_length b)]
+  have d6 : (u16le a ++ (u16le b ++ (u16le c ++ u16le d))).drop 6 = u16le d := by
+    have : (6:Nat) = 4 + 2 := rfl
+    rw [this, ← List.drop_drop, d4, drop_append_len _ _ 2 (u16le_length c)]
+  rw [d2, d4, d6, le16_u16le_append, le16_u16le_append, le16_u16le_append]
+  have := le16_u16le_append d []
+  simp at this
+  rw [this]
+
+theorem join8le16_split8le16 (bs : Bytes) (h : bs.length = 8) : join8le16 (split8le16 bs) = bs := by
+  unfold join8le16 split8le16
+  simp only
+  rw [← le16_take bs, ← le16_take (bs.drop 2), ← le16_take (bs.drop 4), ← le16_take (bs.drop 6)]
+  rw [u16le_le16 _ (by simp [h]), u16le_le16 _ (by simp [h]), u16le_le16 _ (by simp [h]),
+    u16le_le16 _ (by simp [h])]
+  have e1 : bs = bs.take 2 ++ bs.drop 2 := (List.take_append_drop 2 bs).symm
+  have e2 : bs.drop 2 = (bs.drop 2).take 2 ++ bs.drop 4 := by
+    have := (List.take_append_drop 2 (bs.drop 2)).symm
+    simpa [List.drop_drop] using this
+  have e3 : bs.drop 4 = (bs.drop 4).take 2 ++ bs.drop 6 := by
+    have := (List.take_append_drop 2 (bs.drop 4)).symm
+    simpa [List.drop_drop] using this
+  have e4 : (bs.drop 6).take 2 = bs.drop 6 := List.take_of_length_le (by simp [h])
+  rw [e4]
+  conv => rhs; rw [e1, e2, e3]
+  simp [List.append_assoc]
+
 end XC.C12
